@@ -9,7 +9,7 @@
   subset cycle j < S = #selected, chain c < C = max(ch)+1 (as the implementation counts).
 -/
 import Proofs.Lemmas.MapsIndex
-import EmdModel.Cycles
+import Proofs.Lemmas.MapsCycles
 
 namespace C16
 open Maps
@@ -72,6 +72,17 @@ theorem chainVector_runs (valids : List Bool) :
     intro he; rw [he] at hlen; simp at hlen; omega
   · intro m x hm hx
     exact chainVector_rec _ m _ _ x (hsel m (by omega)) (hsel (m + 1) hm) hx
+
+/-- declaratively: chain numbers never decrease along the subset, and two subset cycles p and p+d
+    share a chain exactly when the cycle index advanced by exactly d, i.e. when every cycle between
+    them is selected too — chains are the MAXIMAL runs of consecutive selected cycles -/
+theorem chainVector_same_chain_iff (valids : List Bool) (p d : Nat) (hq : p + d < valids.count true)
+    (x y : Int) (hx : (chainVector (subsetVector valids))[p]? = some x)
+    (hy : (chainVector (subsetVector valids))[p + d]? = some y) :
+    x ≤ y ∧ (y = x ↔ cycleOf (subsetVector valids) (p + d) = cycleOf (subsetVector valids) p + d) := by
+  obtain ⟨h1, _, h3⟩ := chain_gap (subsetVector valids) p d _ _ x y
+    (selected_cycleOf valids p (by omega)) (selected_cycleOf valids (p + d) hq) hx hy
+  exact ⟨h1, h3⟩
 
 /-- chain numbers are exactly 0..C-1: non-negative, below C = max+1, none skipped -/
 theorem chainVector_range (valids : List Bool) :
@@ -460,6 +471,16 @@ theorem cycle_to_samples_contiguous (cv : List Int) (K : Nat) (hwf : WF cv K) (k
     m ∈ mapCycleToSamples cv k :=
   (mem_whereEq cv k m).mpr
     (hwf.contiguous i m j k him hmj ((mem_whereEq cv k i).mp hi) ((mem_whereEq cv k j).mp hj) (by omega))
+
+/-! ## the hypothesis is met by the cycle detector -/
+
+/-- Every cycle vector produced by the model of `get_cycle_vector` (property C12; any phase, any
+    threshold, good-only or all cycles, any mask) is well-formed, with K = its number of cycles:
+    the theorems above apply to every cycle vector the library itself builds. -/
+theorem cycle_vector_wf (g : Cycles.GoodCfg) (step : Rat) (good : Bool) (ph : List Rat) (mask : List Bool) :
+    WF (Cycles.getCycleVector g step good ph mask)
+      (Cycles.nCycles (Cycles.cvSegs (Cycles.wrapP step) (Cycles.accept g good) (ph.zip mask))) :=
+  paint_cvSegs_wf _ _ _
 
 /-! ## non-vacuity: a recording with gaps, three cycles, two of them selected (two chains) -/
 
